@@ -169,6 +169,7 @@ func (e *Env) driveStates(tag string, states []emitted, judgeHist bool, workers 
 					}
 				}
 				sp := newStepper(store)
+				sp.Base = st.Base
 				var local []*Obs
 				for _, c := range st.Hist {
 					if c.name() == "tear" {
